@@ -10,7 +10,7 @@ theorem outOrd_four (z m : Bool) : outOrd 4 z m = (z, m) := by
 
 theorem outOrd_idem (d : Nat) (z m : Bool) :
     outOrd d (outOrd d z m).1 (outOrd d z m).2 = outOrd d z m := by
-  cases z <;> cases m <;> simp only [outOrd, toN] <;> (repeat' split) <;> simp_all [outOrd, toN] <;> omega
+  cases z <;> cases m <;> simp only [outOrd, toN] <;> (repeat' split) <;> simp_all <;> omega
 
 theorem outOrd_fst_imp (d : Nat) (z m : Bool) (h : (outOrd d z m).1 = true) : z = true := by
   revert h; cases z <;> cases m <;> simp only [outOrd, toN] <;> (repeat' split) <;> simp_all
